@@ -300,9 +300,47 @@ def r4_empty_agreement(ctx):
     yield Ob('xmlx12_simple:convert writes through X12Writer on the given stream', ok, ctx.floc(conv), '' if ok else 'writer construction changed')
 
 
+def r5_nesting_from_current_node(ctx):
+    """the loop elements around a segment spell the map path of the node it matched: the path is derived afresh from
+    that node at every call.  Between calls a writer remembers only the previous path (to know what to close); any
+    other per-instance state read or written by seg() would make the nesting depend on earlier segments - loop ids
+    are not unique within a map (2300 under 2000B and under 2000C)."""
+    for mod, qual in (('x12xml_simple', 'x12xml_simple.seg'), ('x12xml', 'x12xml.seg')):
+        fn = ctx.func(mod, qual)
+        cls = ctx.cls(mod, qual.split('.')[0])
+        methods = set()
+        for c_ in guards_chain(ctx, mod, qual.split('.')[0]):
+            methods |= {f.name for f in c_.body if isinstance(f, ast.FunctionDef)}
+        reads, writes = set(), set()
+        for n in ast.walk(fn):
+            if isinstance(n, ast.Attribute) and isinstance(n.value, ast.Name) and n.value.id == 'self':
+                if isinstance(n.ctx, ast.Store):
+                    writes.add(n.attr)
+                elif n.attr not in methods and not (isinstance(A.parent(n), ast.Call) and A.parent(n).func is n):
+                    reads.add(n.attr)
+        extra_r = sorted(reads - {'last_path', 'writer'})
+        extra_w = sorted(writes - {'last_path'})
+        yield Ob('%s:%s keeps no state between segments but the previous path' % (mod, qual), not extra_r and not extra_w, ctx.floc(fn),
+                 '' if not extra_r and not extra_w else 'seg() also %s: the nesting of a segment then depends on the segments written before it'
+                 % '; '.join(x for x in ('reads self.%s' % ', self.'.join(extra_r) if extra_r else '', 'stores self.%s' % ', self.'.join(extra_w) if extra_w else '') if x))
+        # the path pushed comes from the matched node
+        calls = [c for c in A.calls_in(fn) if A.call_target(c)[1] == 'get_path']
+        ok = bool(calls)
+        yield Ob('%s:%s derives the path from the matched node' % (mod, qual), ok, ctx.floc(fn), '' if ok else 'no get_path() call on the node')
+
+
+def guards_chain(ctx, mod, clsname):
+    from .. import guards
+    try:
+        return guards.class_chain(ctx, mod, clsname)
+    except Exception:
+        return [ctx.cls(mod, clsname)]
+
+
 RULES = [
     Rule('C08.R1', 'XML vocabulary agreement writer<->reader; every element id designates its own position', r1_vocabulary, floor=11000),
     Rule('C08.R2', 'content/attribute escaping: & first, <, quote char; every value passes its escape', r2_escaping, floor=9),
     Rule('C08.R3', 'segment/composite push-pop balance (post-dominance)', r3_balance, floor=4),
     Rule('C08.R4', 'same emptiness predicate on both sides; every <seg> converted in order', r4_empty_agreement, floor=3),
+    Rule('C08.R5', 'loop nesting is derived from the matched node at every call; no other state between segments', r5_nesting_from_current_node, floor=3),
 ]
